@@ -60,6 +60,9 @@ func checkC06(p *Prog, c *Check) {
 	}
 	c06Callers(p, c, accept)
 	c06GetSubset(p, c)
+	// the signature validator of a flavour is one of several validators on the keys topic: all of them
+	// stay registered and are consulted (shared with C04)
+	c04Gossip(p, c, accept)
 }
 
 func acceptConds(accept string) []ResultCond { return []ResultCond{{0, accept}} }
